@@ -107,7 +107,7 @@ def run_histories(hists, U, M, tag, verd, stats, obsall=False):
     os.remove(inp)
     os.remove(outp)
     t1 = time.time()
-    n = validate(recs, tag, verd, stats, M=M)
+    n = validate(recs, tag, verd, stats, M=M, batch=250 if obsall else 4000)
     vlib.log("[C09]   %s: harness %.1fs, TLC validation %.1fs" % (tag, t1 - t0, time.time() - t1))
     return recs, n
 
@@ -144,9 +144,9 @@ def run(tier):
         vlib.log("[C09] GEN %s: %d histories (one per transition of TableImpl) replayed and validated" % (tag, n))
     # 3. seeded random long histories, full observation after every event
     rng = random.Random(vlib.seed() * 7919 + 9)
-    nrand = 1500 if thorough else 200
+    nrand = 800 if thorough else 200
     for U, M, tag in ((LO_U, 5, "rlo"), (HI_U, 0, "rhi")):
-        hists = [rand_hist(rng, U, M or 67108864, rng.choice([20, 40, 80] if not thorough else [40, 100, 200])) for _ in range(nrand)]
+        hists = [rand_hist(rng, U, M or 67108864, rng.choice([20, 40, 80] if not thorough else [40, 80, 160])) for _ in range(nrand)]
         recs, n = run_histories(hists, U, M, tag, verd, stats, obsall=True)
         total += n
         for h in hists:
